@@ -93,9 +93,9 @@ def real_tree_line(node, sk_index):
 
     def go(n):
         if n[0] == "T":
-            out.append("[ %d %d ]" % (sk_index[n[1]], n[3] - n[2]))
+            out.append("[ %d %d ]" % (sk_index.get(n[1], 65535), n[3] - n[2]))
         else:
-            out.append("( %d" % sk_index[n[1]])
+            out.append("( %d" % sk_index.get(n[1], 65535))
             for c in n[4]:
                 go(c)
             out.append(")")
@@ -201,3 +201,30 @@ def stale_generated(ctx, fails, theorems, source_translators=("t_lexer", "t_prep
     ctx.cov["stale_generated_input"] = {"translators_failed": sorted(tr_failed), "theorems_not_established": sorted(stale)}
     ok = ctx.cov.get("axioms_per_theorem", {})
     ctx.cov["discharged"] = max(0, ctx.cov.get("discharged", 0) - len([t for t in stale if ok.get(t) == []]))
+
+
+# --------------------------------------------------------------------------- ast.rs methods / lib.rs glue tie
+AST_SOURCE_THEOREMS = ["Ast_methods_are_source", "Ast_methods_covered", "Ast_interpret_number_is_source",
+                       "Ast_other_methods_total", "Lib_glue_is_source"]
+AST_SOURCE_TRANSLATORS = ["t_tokens", "t_ast", "t_lexer", "t_astmethods", "t_libglue"]
+
+
+def ast_source_step(ctx, fails):
+    """For checks that rely on the bridge's hand models of the hand-written ast.rs methods (model/AstToCore.v:
+    m_identifier, m_integer_value, m_string_value, m_is_single_element, m_bang_kind): regenerate GenAstMethods.v /
+    GenLibGlue.v from the current sources and re-check props/AstSource.vo.  Call AFTER vlib.proof_step: appends the
+    failures to `fails`, adds the obligations to the coverage counters.  (design/notes-translator-ast.md)"""
+    tr = vlib.run_translators(AST_SOURCE_TRANSLATORS)
+    bad = False
+    for name, (ok, msg) in tr.items():
+        ctx.cov.setdefault("translators", {})[name] = msg
+        if not ok:
+            bad = True
+            fails.append({"kind": "translator", "translator": name, "error": msg})
+    r = vlib.prove("TG.Props.AstSource", AST_SOURCE_THEOREMS, ["props/AstSource.vo"])
+    fails += r["failures"]
+    ctx.cov["obligations"] = ctx.cov.get("obligations", 0) + r["obligations"]
+    ctx.cov["discharged"] = ctx.cov.get("discharged", 0) + (0 if bad else r["discharged"])
+    ctx.cov["theorems"] = list(ctx.cov.get("theorems", [])) + AST_SOURCE_THEOREMS
+    ctx.cov.setdefault("axioms_per_theorem", {}).update(r["assumptions"])
+    return r
